@@ -860,6 +860,13 @@ def dfs_configs() -> list[tuple[str, LoopCfg, list]]:
        breaker={"threshold": 1, "window": 10, "recovery": 5, "trip": ["UNKNOWN"], "cls": {}},
        script=[("call",), ("advance", 5), ("execute",)])
     mk("retry-call-hookfaults", flags=["metric", "log", "p_before_sleep"], max_attempts=2)
+    mk("policy-noretry-exec-starthook", kind="Policy", flags=["no_retry", "log", "c_attempt_start", "abort_if"],
+       breaker={"threshold": 1, "window": 10, "recovery": 5, "trip": ["UNKNOWN"], "cls": {}},
+       script=[("execute",), ("advance", 5), ("call",)])
+    mk("retry-exec-attempt-timeout", flags=["attempt_timeout", "metric", "abort_if"], script=[("execute",)])
+    mk("retry-call-falsy-recording-strategy", flags=["metric", "c_sleeper"], max_attempts=3)
+    out[-1][1].strat_for = {"TRANSIENT": "ctx"}
+    out[-1][1].strat_records = ["cls:TRANSIENT"]
     return out
 
 
